@@ -91,6 +91,62 @@ def ground_sum(S, ops, xv):
     return want
 
 
+def inverse_scenario(ck, T, oracle=None, twice=False):
+    """BlockDiagonalOperator.inverse (shared with C06): block-wise iff every block is square, else the default lazy
+    inverse of the whole operator, which refuses it.  With `twice` (C06: A.I.I denotes A) the lemma "X.I.I denotes X for an
+    invertible operator of unknown class" is added: A.I is again a block diagonal of square blocks b_k.I, so the
+    postcondition proved here for EVERY container applies to it: (A.I).I has the blocks b_k.I.I, which denote b_k."""
+    P = ck.P
+    def diag_inverse(S):
+        S.oracle = oracle or ORACLE
+        blocks, seq, a, n = container(S)
+        S.assume(n >= 1)
+        o = S.new('BlockDiagonalOperator', blocks=blocks)
+        k = fresh_int('k')
+        square = z3.ForAll([k], z3.Implies(rng(k, n), A.ins(a[k]) == A.outs(a[k])))
+        out = S.call(S.I.getattr(o, 'inverse'), [])
+        if out.raised('ValueError'):
+            S.oblige('exc', z3.Not(square), tag='refused-only-if-some-block-is-not-square')
+            calls = S.run.ghost.get('lazy_inverse_of', [])
+            S.oblige('exc', len(calls) == 1 and calls[0] is o,
+                     tag='refused-by-the-default-lazy-inverse-of-the-whole-operator (InverseOperator(self))')
+            return
+        if not out.normal:
+            S.oblige('exc', False, tag=f'undeclared-{out.value.name}', note=str(out.where))
+            return
+        S.oblige('post', square, tag='inverted-block-wise-only-if-every-block-is-square')
+        r = out.value
+        ok = isinstance(r, Obj) and r.cls.name == 'BlockDiagonalOperator' and isinstance(r.fields.get('blocks'), B.PyList)
+        S.oblige('post', bool(ok), tag='result-is-a-block-diagonal-operator')
+        if not ok:
+            return
+        rb = r.fields['blocks']
+        same_container(S, rb, blocks.treedef, n, lambda k: BK.inversed(a[k]), 'inverse.blocks[k] = b_k.I')
+        ra = A.arr_of(S.run, rb.as_seq(), S.I)
+        S.assume(BK.lem_inv_container(ra, a, n))        # LA4 instance for the two lists at hand
+        c, w, i_, o_ = A.den_of(S.I, r)
+        S.oblige('post', z3.And(w == A.invw(A.BLKW['Diag'](a, n)), c == 1), tag='denotes-the-inverse (LA4)', exact=False)
+
+    def record_lazy_inverse(interp, fi, args, kwargs):
+        if fi.fullname == 'furax._base.core.InverseOperator.__init__':
+            interp.run.ghost.setdefault('lazy_inverse_of', []).append(args[1] if len(args) > 1 else None)
+        return None
+    ck.explore(f'{BL}.BlockDiagonalOperator.inverse', diag_inverse, T, axioms=BK.inverse_axioms(),
+               call_hook=record_lazy_inverse)
+    if twice:
+        def involution(S):
+            """consequence of the contract of X.I (theories/blocks.inverse_axioms) used above: for an invertible operator
+            of unknown class, X.I.I denotes X (LA3: inv(inv f) = f; 1/(1/c) = c for c != 0)"""
+            o = z3.Const('o', A.Op)
+            S.inputs['o'] = o
+            S.assume(A.denc(o) != 0)
+            oo = BK.inversed(BK.inversed(o))
+            S.oblige('lemma', z3.And(A.denw(oo) == A.denw(o), A.denc(oo) == A.denc(o), A.ins(oo) == A.ins(o),
+                                     A.outs(oo) == A.outs(o)), tag='inverse-of-the-inverse denotes the operator', exact=False)
+        ck.explore(f'{BL}.BlockDiagonalOperator.inverse', involution, T, label='lemma', axioms=BK.inverse_axioms())
+
+
+
 def build(ck):
     P = ck.P
     T = BK.BlockTheory(P)
@@ -277,42 +333,7 @@ def build(ck):
                    label=f'literal-arity-{arity}', axioms=NOAX)
 
     # ================================================================== inverse
-    def diag_inverse(S):
-        S.oracle = ORACLE
-        blocks, seq, a, n = container(S)
-        S.assume(n >= 1)
-        o = S.new('BlockDiagonalOperator', blocks=blocks)
-        k = fresh_int('k')
-        square = z3.ForAll([k], z3.Implies(rng(k, n), A.ins(a[k]) == A.outs(a[k])))
-        out = S.call(S.I.getattr(o, 'inverse'), [])
-        if out.raised('ValueError'):
-            S.oblige('exc', z3.Not(square), tag='refused-only-if-some-block-is-not-square')
-            calls = S.run.ghost.get('lazy_inverse_of', [])
-            S.oblige('exc', len(calls) == 1 and calls[0] is o,
-                     tag='refused-by-the-default-lazy-inverse-of-the-whole-operator (InverseOperator(self))')
-            return
-        if not out.normal:
-            S.oblige('exc', False, tag=f'undeclared-{out.value.name}', note=str(out.where))
-            return
-        S.oblige('post', square, tag='inverted-block-wise-only-if-every-block-is-square')
-        r = out.value
-        ok = isinstance(r, Obj) and r.cls.name == 'BlockDiagonalOperator' and isinstance(r.fields.get('blocks'), B.PyList)
-        S.oblige('post', bool(ok), tag='result-is-a-block-diagonal-operator')
-        if not ok:
-            return
-        rb = r.fields['blocks']
-        same_container(S, rb, blocks.treedef, n, lambda k: BK.inversed(a[k]), 'inverse.blocks[k] = b_k.I')
-        ra = A.arr_of(S.run, rb.as_seq(), S.I)
-        S.assume(BK.lem_inv_container(ra, a, n))        # LA4 instance for the two lists at hand
-        c, w, i_, o_ = A.den_of(S.I, r)
-        S.oblige('post', z3.And(w == A.invw(A.BLKW['Diag'](a, n)), c == 1), tag='denotes-the-inverse (LA4)', exact=False)
-
-    def record_lazy_inverse(interp, fi, args, kwargs):
-        if fi.fullname == 'furax._base.core.InverseOperator.__init__':
-            interp.run.ghost.setdefault('lazy_inverse_of', []).append(args[1] if len(args) > 1 else None)
-        return None
-    ck.explore(f'{BL}.BlockDiagonalOperator.inverse', diag_inverse, T, axioms=BK.inverse_axioms(),
-               call_hook=record_lazy_inverse)
+    inverse_scenario(ck, T)
 
     # ================================================================== as_matrix
     FN = {'Row': 'jax.numpy.hstack', 'Diag': 'jax.scipy.linalg.block_diag', 'Col': 'jax.numpy.vstack'}
